@@ -367,3 +367,6 @@ Fixpoint hrun_cur (ops : list hop) (r : vrec) : res vrec :=
   | HPhase ds :: t => hrun_cur t (phase_write ds r)
   | HUnphase :: t => match unphase_rec cur_rule r with Ok r' => hrun_cur t r' | Err e => Err e end
   end.
+
+(* L2 against the other variant of the switch: implementation = model with the repaired rule *)
+Definition l2_records_fixed (c : ucase) : bool := fres_eqb (unphase_file fixed_rule (uc_in c)) (uc_out c, uc_err c).
